@@ -422,6 +422,91 @@ def check_start(ctx, db):
     ctx.check(ok, 'R-FIELDSEQ', 'read_oas/START-offset-table', f.loc(), 'offset-flag 0: the twelve table-offset integers follow in START and are skipped')
 
 
+# SEMI P39 ctrapezoid-type table: which of the two dimensions a compact trapezoid of type t carries
+CTRAP_W = set(range(0, 20)) | {22, 23, 24, 25}
+CTRAP_H = set(range(0, 16)) | {20, 21, 24}
+
+
+def check_ctrapezoid(ctx, db):
+    from .C19 import ieval
+    p = db.fn('gdstk::Polygon::to_oas')
+    ctx.touch(p)
+    uw = next((v for v in p.walk() if v.k == 'VarDecl' and v.n == 'use_w' and v.child('init') is not None), None)
+    uh = next((v for v in p.walk() if v.k == 'VarDecl' and v.n == 'use_h' and v.child('init') is not None), None)
+    if uw is None or uh is None:
+        raise AnalysisBroken('Polygon::to_oas: use_w / use_h not found')
+    gw = {t for t in range(26) if ieval(uw.child('init'), {'type': t})}
+    gh = {t for t in range(26) if ieval(uh.child('init'), {'type': t})}
+    ctx.explored['valuations'] += 52
+    ctx.check(gw == CTRAP_W and gh == CTRAP_H, 'R-TABLE', 'Polygon::to_oas/CTRAPEZOID-dimensions', uw.loc(), 'for ctrapezoid types 0..25 the width is written exactly for the types the standard gives a width (all but 20, 21) and the height for 0-15, 20, 21, 24',
+              'CTRAPEZOID dimension table differs from the standard: width written for %s (missing %s, extra %s), height written for %s (missing %s, extra %s)' % (sorted(gw), sorted(CTRAP_W - gw), sorted(gw - CTRAP_W), sorted(gh), sorted(CTRAP_H - gh), sorted(gh - CTRAP_H)))
+    bits = {}
+    for x in p.walk():
+        if x.k == 'CompoundAssignOperator' and x.op == '|=' and norm(x.child('lhs').text()) == 'info' and x.parent is not None:
+            g = next((a for a in x.ancestors() if a.k == 'IfStmt'), None)
+            if g is not None and norm(g.child('cond').text()) in ('use_w', 'use_h'):
+                bits[norm(g.child('cond').text())] = x.child('rhs').cv
+    ctx.check(bits == {'use_w': 0x40, 'use_h': 0x20}, 'R-TABLE', 'Polygon::to_oas/CTRAPEZOID-bits', uw.loc(), 'W = 0x40 under use_w, H = 0x20 under use_h', 'bits: %s' % bits)
+    # reader: triangles are types 16..23; the dimension a type does not carry is derived and stored in the modal variable
+    r = db.fn('gdstk::read_oas')
+    tri = next((i for i in r.walk() if i.k == 'IfStmt' and norm(i.child('cond').text()).count('modal_ctrapezoid_type') == 2), None)
+    sw = next((s_ for s_ in r.walk() if s_.k == 'SwitchStmt' and norm(s_.child('cond').text()) == 'modal_ctrapezoid_type'), None)
+    if tri is None or sw is None:
+        raise AnalysisBroken('read_oas: CTRAPEZOID type dispatch not found')
+    got = {t for t in range(26) if ieval(tri.child('cond'), {'modal_ctrapezoid_type': t})}
+    ctx.check(got == set(range(16, 24)), 'R-TABLE', 'read_oas/CTRAPEZOID-triangles', tri.loc(), 'types 16..23 are the triangles', 'triangle types: %s' % sorted(got))
+    derived = {}
+    seen = set()
+    for labels, stmts, top in tables.switch_arms(sw):
+        st = {norm(x.child('lhs').text()) for s_ in stmts for x in s_.walk() if is_assign(x) and norm(x.child('lhs').text()).startswith('modal_geom_dim.')}
+        uses = {m_ for s_ in stmts for x in s_.walk() if x.k == 'MemberExpr' for m_ in [norm(x.text())] if m_.startswith('modal_geom_dim.')}
+        for l in labels:
+            seen.add(l)
+            derived[l] = (st, uses - st)
+    bad = []
+    for t in range(26):
+        if t == 24:
+            continue
+        if t not in derived:
+            bad.append('type %d has no arm' % t)
+            continue
+        st, uses = derived[t]
+        need_store = set()
+        if t not in CTRAP_H and t != 25:
+            need_store.add('modal_geom_dim.y')
+        if t not in CTRAP_W:
+            need_store.add('modal_geom_dim.x')
+        if st != need_store:
+            bad.append('type %d stores %s (expected %s)' % (t, sorted(st), sorted(need_store)))
+        absent = ({'modal_geom_dim.y'} if t not in CTRAP_H else set()) | ({'modal_geom_dim.x'} if t not in CTRAP_W else set())
+        if uses & absent:
+            bad.append('type %d reads %s, which the record does not carry' % (t, sorted(uses & absent)))
+    ctx.check(not bad, 'R-TABLE', 'read_oas/CTRAPEZOID-derived-dimensions', sw.loc(), 'each type uses only the dimensions it carries; the missing one is derived (h = w, h = 2w, w = 2h) and stored in the modal geometry', '; '.join(bad[:4]))
+
+
+def check_modal_repetition(ctx, db):
+    """repetition type 0 = reuse the modal repetition: the reader must return before touching it, and every element copies from it"""
+    r = db.fn('gdstk::oasis_read_repetition')
+    ctx.touch(r)
+    body = [s_ for s_ in r.body.c if s_ is not None]
+    t0 = [i for i in body if i.k == 'IfStmt' and norm(i.child('cond').text()) == '(type == 0)']
+    writes = [s_ for s_ in body if any((x.k == 'CXXMemberCallExpr' and norm(x.child('obj').text()) == 'repetition') or ((is_assign(x) or x.k == 'CompoundAssignOperator') and norm(x.child('lhs').text()).startswith('repetition.')) for x in s_.walk())]
+    ok = len(t0) == 1 and any(x.k == 'ReturnStmt' for x in t0[0].child('then').walk()) and writes and all(t0[0].id < w_.id for w_ in writes)
+    ctx.check(ok, 'R-DEP', 'oasis_read_repetition/type0-keeps-modal', r.loc(), 'type 0 returns before anything is stored in (or cleared from) the modal repetition', 'the modal repetition is modified before the type-0 (reuse) test')
+    f = db.fn('gdstk::read_oas')
+    calls = [c for c in f.walk() if c.k == 'CallExpr' and c.callee == 'gdstk::oasis_read_repetition']
+    bad = []
+    for c in calls:
+        if norm(c.args[-1].text()) != 'modal_repetition':
+            bad.append('%s reads into %s' % (c.loc(), norm(c.args[-1].text())))
+            continue
+        blk = c.parent
+        nxt = blk.c[blk.c.index(c) + 1] if blk is not None and blk.k == 'CompoundStmt' and blk.c.index(c) + 1 < len(blk.c) else None
+        if nxt is None or not (nxt.k == 'CXXMemberCallExpr' and (nxt.callee or '').endswith('::copy_from') and norm(nxt.args[0].text()) in ('modal_repetition', 'Repetition{modal_repetition}')):
+            bad.append('%s: the element does not copy the modal repetition' % c.loc())
+    ctx.check(len(calls) >= 10 and not bad, 'R-CLONE', 'read_oas/repetition-through-modal', f.loc(), 'all %d repetition fields are read into the modal repetition, which the element then copies' % len(calls), '; '.join(bad[:3]))
+
+
 def run(ctx):
     db = ctx.db
     check_start(ctx, db)
@@ -429,6 +514,8 @@ def run(ctx):
     check_writers(ctx, db)
     check_end_record(ctx, db)
     check_std_properties(ctx, db)
+    check_ctrapezoid(ctx, db)
+    check_modal_repetition(ctx, db)
 
 
 MANIFEST = dict(
